@@ -280,7 +280,7 @@ class Interp(Folder):
             if a in v.methods:
                 return v.methods[a]
             self.err(e, "class attribute")
-        if isinstance(v, DT) and a == "__class__":
+        if a == "__class__" and not isinstance(v, (Obj, IClass, _ModuleNS)):
             return ("type-of", v)
         if isinstance(v, tuple) and v[:1] == ("type-of",) and a in ("__name__", "__qualname__"):
             if isinstance(v[1], DT):
@@ -302,8 +302,10 @@ class Interp(Folder):
             if hasattr(v, a):
                 return getattr(v, a)
             self.err(e, f"unknown module attribute {a}")
-        if isinstance(v, str) and a in ("join", "format", "lower", "upper"):
+        if isinstance(v, str) and a in ("join", "format", "lower", "upper", "startswith", "endswith", "strip", "split", "replace"):
             return getattr(v, a)
+        if isinstance(v, (str, int, float, bool)) and not hasattr(v, a):
+            raise PyRaise("AttributeError", f"'{type(v).__name__}' object has no attribute '{a}'", e)
         if isinstance(v, (dict, list, set, tuple, type({}.keys()), type({}.values()), type({}.items()))):
             if hasattr(v, a):
                 return getattr(v, a)
